@@ -720,7 +720,12 @@ class OpenVocabProperty(StringProperty):
 
 
 class PatternProperty(StringProperty):
-    pass
+
+    def clean(self, value, allow_custom=False, interoperability=False):
+        value, has_custom = super(PatternProperty, self).clean(value, allow_custom)
+        if not value:
+            raise ValueError("must not be empty")
+        return value, has_custom
 
 
 class ObservableProperty(Property):
